@@ -37,7 +37,7 @@ TOutcome(d, ts, envv) ==
   ELSE LET ro == Outcome(ts.root, envv)
            co == GOutcome(Sub(d, ts.k), ts.g, envv) IN
        IF ro.class = "stdout" THEN ro                                      \* asked of the root before the name
-       ELSE IF co.class = "stdout" THEN [co EXCEPT !.path = ts.root.path]  \* asked of the command: its own help
+       ELSE IF co.class = "stdout" THEN [co EXCEPT !.path = ts.root.path \o @]  \* asked of the command: its own help
        ELSE IF ro.class = "stderr" THEN ro
        ELSE IF co.class = "stderr" THEN co
        ELSE [class |-> "ok", value |-> WithChild(ro.value, co.value)]
@@ -65,5 +65,5 @@ TScope ==
 TNoResurrection == (st.k # 0 /\ st.g.dead # "") => TOut.class # "ok"
 \* help asked inside the command describes the command (C10)
 THelpInside == (st.k # 0 /\ st.g.help /\ ~st.root.helpAt.set /\ ~st.root.verAt.set /\ ~st.root.ambig)
-               => (TOut.class = "stdout" /\ TOut.path = <<def.tail.cmds[st.k].names[1]>>)
+               => (TOut.class = "stdout" /\ TOut.path[1] = def.tail.cmds[st.k].names[1])
 =============================================================================
